@@ -187,7 +187,38 @@ def make_app(loop, obs: Obs, behaviours: list, tick=0.001, client_max_size=1024 
             return ws
         if kind == "bigresp":
             return web.Response(body=b"B" * int(arg or 70000), headers=hdr)
+        if kind == "payload":
+            # payload:<form>-<status>[-<size>]: an ordinary web.Response whose body is not bytes but an object
+            # aiohttp converts to a Payload (file-like objects, text streams, async generators, a Payload
+            # instance) and writes through the payload's own write(); with status 204 / 304, or in answer to
+            # HEAD, such a response still ends at the blank line
+            form, _, rest_ = arg.partition("-")
+            st_, _, size = rest_.partition("-")
+            await read_body(request, rec)
+            return web.Response(status=int(st_ or 200), body=payload_body(form, n, int(size or 0)), headers=hdr)
         raise AssertionError("unknown behaviour " + beh)
+
+    def payload_body(form, n, size):
+        import io
+
+        from aiohttp import payload as _payload
+
+        text = b"pl%d:" % n + b"p" * size
+        if form == "bytesio":
+            return io.BytesIO(text)
+        if form == "strio":
+            return io.StringIO(text.decode("ascii"))
+        if form == "bufrd":
+            return io.BufferedReader(io.BytesIO(text))
+        if form == "bytespl":
+            return _payload.BytesPayload(text)
+        if form == "agen":
+            async def agen():
+                yield text[:3]
+                await asyncio.sleep(tick)
+                yield text[3:]
+            return agen()
+        raise AssertionError("unknown payload form " + form)
 
     app = web.Application(middlewares=[mw], client_max_size=client_max_size)
 
